@@ -48,6 +48,15 @@ pub fn run(args: &[String]) {
             (sp, if back { x0 - sp } else { x0 + sp }, if rng.chance(0.3) { Some(3e-7) } else { None }, Some(if rng.chance(0.5) { 2e-7 } else { 5e-7 }), None)
         } else { (span, xend, first, maxstep, minstep) };
         let (p, y0) = if id % 20 == 7 { let p = Prob::new(Kind::Slow); let y0 = p.y0(); (p, y0) } else { (p, y0) };
+        // every 20th case: far from the origin (|x| = 2^40, one ulp = 2^-12) with a binding max_step and a remainder a little
+        // above 1 % of it: the landing stretch must be measured against the step, not against the size of x
+        let far = id % 20 == 11;
+        let (x0, span, xend, first, maxstep, minstep) = if far {
+            let x0 = [1_099_511_627_776.0, -1_099_511_627_776.0, 1_099_511_627_780.0][(id / 20) % 3];
+            let sp = 10.0 * 0.125 + [0.140625, 0.1298828125, 0.126953125, 0.12548828125][(id / 60) % 4];
+            (x0, sp, if back { x0 - sp } else { x0 + sp }, Some(0.125), Some(0.125), None)
+        } else { (x0, span, xend, first, maxstep, minstep) };
+        let (p, y0) = if far { let p = Prob::new(Kind::Slow); let y0 = p.y0(); (p, y0) } else { (p, y0) };
         let nmax = if rng.chance(0.2) { 1 + rng.below(60) } else { 3000 };
         let maxit = if rng.chance(0.25) { 1 + rng.below(5) } else { 4 };
         let ntol = if rng.chance(0.1) { Some(10f64.powf(-rng.range(1.0, 4.0))) } else { None };
